@@ -606,10 +606,20 @@ Proof.
   eapply srel_trans; [exact R2|apply srel_send_session].
 Qed.
 
+Lemma srel_transient_update xs h k r del key val : srel xs h (fst (transient_update h k r del key val)).
+Proof.
+  unfold transient_update.
+  assert (Hn : forall d m, srel xs h (fst (transient_notify h k r d m))).
+  { intros d m. unfold transient_notify. apply srel_fold_sessions; [srel_ns|]. intros. apply srel_send_session. }
+  destruct (del || N.eqb val 0).
+  - destruct (aget (r_transient r) key); [apply Hn|apply srel_refl].
+  - destruct (aget (r_transient r) key) as [v|]; [destruct (N.eqb v val); [apply srel_refl|apply Hn]|apply Hn].
+Qed.
+
 Lemma srel_room_request xs h k q : srel xs h (fst (room_request h k q)).
 Proof.
   unfold room_request. destruct (room_of h k) as [r|]; [|apply srel_refl].
-  destruct q as [|users rs|tag|l|l|ic|tag|ok]; [| | | | | | |apply srel_refl].
+  destruct q as [|users rs|tag|l|l|ic|tag|ok|del key val]; [| | | | | | |apply srel_refl|apply srel_transient_update].
   - match goal with |- context [fold_sessions h ?int ?f] => destruct (fold_sessions h int f) as [h0 o0] eqn:H0 end.
     assert (R0 : srel xs h h0).
     { rewrite (fst_eq _ _ _ H0). apply srel_fold_sessions; [apply srel_refl|]. intros. apply srel_send_session. }
@@ -689,7 +699,7 @@ Qed.
 
 Lemma srel_do_api xs h b room q : srel xs h (fst (do_api h b room q)).
 Proof.
-  unfold do_api. destruct q as [|users rs|tag|l|l|ic|tag|ok]; cbn [fst]; try srel_ns.
+  unfold do_api. destruct q as [|users rs|tag|l|l|ic|tag|ok|del key val]; cbn [fst]; try srel_ns.
   - apply srel_fold_left.
     + apply srel_fold_left; [apply srel_refl|]. intros. srel_ns.
     + intros hh x. destruct (aget (h_rs2 hh) (1000000 + x)); [srel_ns|apply srel_refl].
@@ -1215,12 +1225,9 @@ Proof.
   - apply Hws. intros. apply Hrel. now apply srel_do_media.
   - apply Hrel, srel_do_mcudone.
   - apply Hws. intros cn sid s Hc Hs. destruct (s_room s) as [k|]; [|exact I].
-    destruct (negb (allowed_transient s)); [exact I|]. destruct (room_of h k) as [r|]; [|exact I]. cbv zeta.
-    destruct (N.eqb kindn 0).
-    + destruct (aget (r_transient r) key) as [v|].
-      * destruct (N.eqb v val); [exact I|]. apply Hrel. apply srel_fold_sessions; [srel_ns|]. intros. apply srel_send_session.
-      * apply Hrel. apply srel_fold_sessions; [srel_ns|]. intros. apply srel_send_session.
-    + destruct (aget (r_transient r) key); [|exact I]. apply Hrel. apply srel_fold_sessions; [srel_ns|]. intros. apply srel_send_session.
+    destruct (2 <=? kindn); [exact I|].
+    destruct (negb (allowed_transient s)); [exact I|]. destruct (room_of h k) as [r|]; [|exact I].
+    apply Hrel, srel_transient_update.
   - apply Hrel, srel_deliver_at.
 Qed.
 
